@@ -47,7 +47,7 @@ N = {"quick": 5, "thorough": 7}
 BUDGET = {"quick": 1500, "thorough": 20000}
 FLOORS = {
     "quick": {"nontrivial": 40, "counters": {"sampling.distributions_enumerated": 1200,
-                                              "sampling.distributions_enumerated_3plus_objects": 250,
+                                              "sampling.distributions_enumerated_3plus_objects": 200,
                                               "sampling.leaves_enumerated": 60000,
                                               "sampling.local_draws_forced": 12000,
                                               "sampling.refusals_checked": 800}},
